@@ -9,13 +9,14 @@
    * per-accelerator discharge of the hypotheses, proved: the anchor part of findFirstCharDefault
      (C03_default_anchor_jump, from the C04 anchor facts as hypotheses) and the bump-along shortcut
      (C03_bump_sound, C03_bump_discharges_H3, on the reference semantics).
-   * NOT proved here: (H1) for the Boyer-Moore scan, the first-character loop and the optimized
-     finders (leading string(s), fixed-distance char/string/sets, literal-after-loop, landmark chain,
-     trailing fixed-length end), (H2) for MinRequiredLength, and the raw-string prefilters.  These are
-     checked on the implementation at every position by harness leg c03-accel (candidate finder vs
-     table of successful attempts) and replayed through this model by leg c03-scanmodel. *)
-From Verif Require Import Base.Prelude Model.Tree Model.Spec Model.Scan
-  Proofs.ScanProofs Proofs.ScanBumpProofs.
+   * (H1) for the optimized finders of runner.go:1468-1945 (Model/Finder.v, tied to the code at every
+     position by leg c03-finder): second half of this file, each from the compile-time fact it relies on.
+   * NOT proved here: (H1) for the Boyer-Moore scan (the machine is not modelled) and the raw-string
+     prefilters.  These are checked on the implementation at every position by harness leg c03-accel
+     (candidate finder vs table of successful attempts) and replayed through this model by leg
+     c03-scanmodel. *)
+From Verif Require Import Base.Prelude Base.Utf8 Model.Tree Model.Spec Model.Scan Model.Finder Model.Analysis
+  Proofs.ScanProofs Proofs.ScanBumpProofs Proofs.FinderProofs Proofs.FinderCompose.
 
 (* ---- the generic theorem ------------------------------------------------------------------
    sc_H1_true : finder p = (true,q)  -> q at-or-beyond p, in the text, no match in [p,q)
@@ -267,4 +268,617 @@ Example C03_bump_lazy_committing_atomic_counterexample :
   attempt e 10 ex_root_lazy 0 = Ok None /\
   bp_run e COne 97 0 0 = 2 /\
   attempt e 10 ex_root_lazy 1 = Ok (Some {| pos := 3; caps := [(0, [(1, 2)])] |}).
+Proof. vm_compute. repeat split; reflexivity. Qed.
+
+
+(* =========================================================================================
+   The optimized candidate finders (runner.go:1468-1945; model: Model/Finder.v, proofs:
+   Proofs/FinderProofs.v).
+
+   For a matcher [exec] over [text] (n = zlen text), [fd_succeeds exec q] = the attempt at q matches.
+   A finder F : position -> res (found, Runtextpos) is SOUND for the matcher ([fd_sound]) when at every
+   position p of the text it answers Ok (found, q), never Crash / Fuel, with p <= q <= n, no successful
+   attempt in [p, q), and no successful attempt in [p, n] at all when found = false.  Each theorem
+   below has the form   FACT about the matcher  ->  the finder of that mode is sound;
+   C03_finder_sound_H1 turns soundness into the two (H1) hypotheses of C03_scan_finder_sound and
+   C03_finder_scan_sound concludes "scan with this finder = accelerator-free scan".
+   The facts are what the analysis publishes in FindOptimizations:
+     fd_minlen_fact m          a match at q needs m runes ahead: m <= n - q          (C04_min_len_sound)
+     fd_trailing_end_fact L    every match starts at n - L                 (C04_trailing_fixed_length_sound)
+     fd_prefix_fact eqc P      the text at q starts with P, runes compared by eqc (exact, ASCII fold,
+                               or "x = c or ToLower x = c", whichever the finder uses)
+     fd_prefixes_fact eqc Ps   ... starts with one of Ps
+     fd_fdchar_fact c d        text[q+d] = c
+     fd_fdstring_fact s d      the text at q+d starts with s
+     fd_fds_fact sets          for every set s of the list, text[q + s.Distance] is in s (as
+                               charInFixedDistanceSet computes membership)
+   ========================================================================================= *)
+
+Theorem C03_finder_sound_H1 :
+  forall (R : Type) (text : list Z) (exec : Z -> option R * Z) (F : Z -> res (bool * Z)),
+    fd_sound R text exec F ->
+    sc_H1_true R (zlen text) false (fd_total F) exec /\ sc_H1_false R (zlen text) false (fd_total F) exec.
+Proof. exact fd_sound_H1. Qed.
+Print Assumptions C03_finder_sound_H1.
+
+Theorem C03_finder_scan_sound :
+  forall (R : Type) (text : list Z) (exec : Z -> option R * Z) (minreq : Z) (F : Z -> res (bool * Z)),
+    fd_sound R text exec F ->
+    fd_minlen_fact R text exec minreq ->
+    sc_H3 R (zlen text) false exec ->
+    forall start prevlen, 0 <= start <= zlen text ->
+    exists r, scan (zlen text) false minreq (fd_total F) exec start prevlen = Ok r
+           /\ naive_scan (zlen text) false exec start prevlen = Ok r.
+Proof. exact fd_scan_sound. Qed.
+Print Assumptions C03_finder_scan_sound.
+
+(* TrailingAnchor_FixedLength_LeftToRight_End: runner.go:1531 findTrailingFixedLengthEnd *)
+Theorem C03_finder_trailing_end :
+  forall (R : Type) (text : list Z) (exec : Z -> option R * Z) (L : Z), 0 <= L ->
+    fd_trailing_end_fact R text exec L ->
+    fd_sound R text exec (fun p => fd_find_trailing_fixed_length_end text p L).
+Proof. exact fd_trailing_end_sound. Qed.
+Print Assumptions C03_finder_trailing_end.
+
+(* LeadingString_LeftToRight / LeadingString_OrdinalIgnoreCase_LeftToRight: runner.go:1541
+   findLeadingStringLeftToRight.  [fd_leading_eqc lower ic P] is the comparison the finder uses:
+   equality; under ignoreCase foldASCII x = foldASCII c when P is all ASCII, else x = c or ToLower x = c. *)
+Theorem C03_finder_leading_string :
+  forall (R : Type) (text : list Z) (exec : Z -> option R * Z) (lower : Z -> Z) (minreq : Z),
+    fd_minlen_fact R text exec minreq ->
+    forall (P : list Z) (ic : bool),
+    fd_prefix_fact R text exec (fd_leading_eqc lower ic P) P ->
+    fd_sound R text exec (fun p => fd_find_leading_string text lower minreq p P ic).
+Proof. exact fd_leading_string_sound. Qed.
+Print Assumptions C03_finder_leading_string.
+
+(* LeadingStrings_LeftToRight / LeadingStrings_OrdinalIgnoreCase_LeftToRight: runner.go:1571
+   findLeadingStringsLeftToRight, both the position-by-position loop and the first-rune search.
+   Side conditions on the published data: at least one prefix, no empty prefix, and (for the
+   first-rune search) LeadingPrefixFirstRunes contains the first rune of every prefix - which is what
+   leadingPrefixFirstRunes computes (C03_leading_prefix_first_runes_cover). *)
+Theorem C03_finder_leading_strings :
+  forall (R : Type) (text : list Z) (exec : Z -> option R * Z) (lower : Z -> Z) (minreq : Z),
+    fd_minlen_fact R text exec minreq ->
+    forall (Ps : list (list Z)) (firsts : list Z) (ic : bool),
+    Ps <> [] -> Forall (fun P => P <> []) Ps ->
+    (ic = false -> fd_first_runes_ok Ps firsts) ->
+    fd_prefixes_fact R text exec (fd_strings_eqc lower ic) Ps ->
+    fd_sound R text exec (fun p => fd_find_leading_strings text lower minreq p Ps firsts ic).
+Proof. exact fd_leading_strings_sound. Qed.
+Print Assumptions C03_finder_leading_strings.
+
+Theorem C03_leading_prefix_first_runes_cover :
+  forall Ps, fd_first_runes_ok Ps (fd_leading_prefix_first_runes Ps).
+Proof. exact fd_leading_prefix_first_runes_ok. Qed.
+Print Assumptions C03_leading_prefix_first_runes_cover.
+
+(* FixedDistanceChar_LeftToRight: runner.go:1634 findFixedDistanceCharLeftToRight *)
+Theorem C03_finder_fixed_distance_char :
+  forall (R : Type) (text : list Z) (exec : Z -> option R * Z) (minreq : Z),
+    fd_minlen_fact R text exec minreq ->
+    forall ch d, 0 <= d -> fd_fdchar_fact R text exec ch d ->
+    fd_sound R text exec (fun p => fd_find_fixed_distance_char text minreq p ch d).
+Proof. exact fd_fixed_distance_char_sound. Qed.
+Print Assumptions C03_finder_fixed_distance_char.
+
+(* FixedDistanceString_LeftToRight: runner.go:1658 findFixedDistanceStringLeftToRight *)
+Theorem C03_finder_fixed_distance_string :
+  forall (R : Type) (text : list Z) (exec : Z -> option R * Z) (minreq : Z),
+    fd_minlen_fact R text exec minreq ->
+    forall (lit : list Z) d, 0 <= d -> fd_fdstring_fact R text exec lit d ->
+    fd_sound R text exec (fun p => fd_find_fixed_distance_string text minreq p lit d).
+Proof. exact fd_fixed_distance_string_sound. Qed.
+Print Assumptions C03_finder_fixed_distance_string.
+
+(* FixedDistanceSets_LeftToRight and LeadingSet_LeftToRight: runner.go:1686
+   findFixedDistanceSetsLeftToRight with indexOfSet / fixedDistanceSetsMatchAt / charInFixedDistanceSet.
+   The primary set (sets[0]) must have a non-nil Set and a non-negative distance. *)
+Theorem C03_finder_fixed_distance_sets :
+  forall (R : Type) (text : list Z) (exec : Z -> option R * Z) (minreq : Z),
+    fd_minlen_fact R text exec minreq ->
+    forall (set_in : Z -> Z -> bool) (sets : list fdset) (primary : fdset) (rest : list fdset) (id : Z),
+    sets = primary :: rest -> fs_set primary = Some id -> 0 <= fs_distance primary ->
+    fd_fds_fact R text exec set_in sets ->
+    fd_sound R text exec (fun p => fd_find_fixed_distance_sets text set_in minreq p sets).
+Proof. exact fd_fixed_distance_sets_sound. Qed.
+Print Assumptions C03_finder_fixed_distance_sets.
+
+(* ---- non-vacuity: concrete matchers for which the facts hold and the finders skip positions ---- *)
+
+(* text "xabcabd" (n = 7); the matcher wants "abc" followed by one more rune: it succeeds at 1 only *)
+Definition fx_text : list Z := [120; 97; 98; 99; 97; 98; 100].
+Definition fx_exec (p : Z) : option Z * Z := (if p =? 1 then Some p else None, p).
+Definition fx_low (x : Z) : Z := if (65 <=? x) && (x <=? 90) then x + 32 else x.
+
+(* leading string "abc": from 0 the finder jumps to 1, from 2 it gives up (no later occurrence) *)
+Example C03_finder_leading_string_witness :
+  fd_find_leading_string fx_text fx_low 4 0 [97; 98; 99] false = Ok (true, 1) /\
+  fd_find_leading_string fx_text fx_low 4 2 [97; 98; 99] false = Ok (false, 7) /\
+  sc_chk_H1 Z 7 false (fd_total (fun p => fd_find_leading_string fx_text fx_low 4 p [97; 98; 99] false)) fx_exec = true /\
+  scan 7 false 4 (fd_total (fun p => fd_find_leading_string fx_text fx_low 4 p [97; 98; 99] false)) fx_exec 0 (-1) = Ok (Some 1) /\
+  naive_scan 7 false fx_exec 0 (-1) = Ok (Some 1).
+Proof. vm_compute. repeat split; reflexivity. Qed.
+
+(* ... and the theorem applies: the facts hold for this matcher *)
+Example C03_finder_leading_string_applies :
+  fd_sound Z fx_text fx_exec (fun p => fd_find_leading_string fx_text fx_low 4 p [97; 98; 99] false).
+Proof.
+  assert (Hone : forall q, fd_succeeds Z fx_exec q -> q = 1).
+  { intros q H. unfold fd_succeeds, fx_exec in H. cbn [fst] in H. destruct (q =? 1) eqn:E; [lia | contradiction]. }
+  apply C03_finder_leading_string.
+  - intros q Hq Hs. rewrite (Hone q Hs). vm_compute. discriminate.
+  - intros q Hq Hs. rewrite (Hone q Hs). vm_compute. reflexivity.
+Qed.
+
+(* ignore-case leading string "abc" on "xABcabd": ASCII folding finds the occurrence at 1 *)
+Example C03_finder_leading_string_ic_witness :
+  fd_find_leading_string [120; 65; 66; 99; 97; 98; 100] fx_low 4 0 [97; 98; 99] true = Ok (true, 1) /\
+  sc_chk_H1 Z 7 false (fd_total (fun p => fd_find_leading_string [120; 65; 66; 99; 97; 98; 100] fx_low 4 p [97; 98; 99] true)) fx_exec = true.
+Proof. vm_compute. repeat split; reflexivity. Qed.
+
+(* A WRONG fact: the finder is told "abd" although the matcher matches "abc?" at 1: the match is lost
+   (the finder proposes 4, where the attempt fails, then gives up) *)
+Example C03_finder_wrong_prefix_loses_match :
+  let bad := fd_total (fun p => fd_find_leading_string fx_text fx_low 3 p [97; 98; 100] false) in
+  bad 0 = (true, 4) /\
+  sc_chk_H1 Z 7 false bad fx_exec = false /\
+  scan 7 false 3 bad fx_exec 0 (-1) = Ok None /\
+  naive_scan 7 false fx_exec 0 (-1) = Ok (Some 1).
+Proof. vm_compute. repeat split; reflexivity. Qed.
+
+(* leading strings {"abc","abd"} with first runes [a]: first-rune search; from 2 the next candidate is 4
+   (where the attempt of this matcher fails): the finder may stop at a non-match, never skip a match *)
+Example C03_finder_leading_strings_witness :
+  let F := fun ic firsts p => fd_find_leading_strings fx_text fx_low 4 p [[97; 98; 99]; [97; 98; 100]] firsts ic in
+  F false [97] 0 = Ok (true, 1) /\ F false [97] 2 = Ok (false, 7) /\
+  F false [] 0 = Ok (true, 1) /\ F true [97] 0 = Ok (true, 1) /\
+  fd_find_leading_strings fx_text fx_low 3 2 [[97; 98; 99]; [97; 98; 100]] [97] false = Ok (true, 4) /\
+  fd_leading_prefix_first_runes [[97; 98; 99]; [97; 98; 100]; [120]] = [97; 120] /\
+  sc_chk_H1 Z 7 false (fd_total (F false [97])) fx_exec = true /\
+  sc_chk_H1 Z 7 false (fd_total (F true [97])) fx_exec = true.
+Proof. vm_compute. repeat split; reflexivity. Qed.
+
+(* A first-rune list that misses a prefix's first rune loses the match at 1 *)
+Example C03_finder_wrong_first_runes_loses_match :
+  let bad := fd_total (fun p => fd_find_leading_strings fx_text fx_low 4 p [[97; 98; 99]; [120; 98]] [120] false) in
+  bad 1 = (false, 7) /\ sc_chk_H1 Z 7 false bad fx_exec = false /\
+  scan 7 false 4 bad fx_exec 1 (-1) = Ok None /\ naive_scan 7 false fx_exec 1 (-1) = Ok (Some 1).
+Proof. vm_compute. repeat split; reflexivity. Qed.
+
+(* fixed-distance char: 'c' at distance 2 *)
+Example C03_finder_fixed_distance_char_witness :
+  fd_find_fixed_distance_char fx_text 4 0 99 2 = Ok (true, 1) /\
+  fd_find_fixed_distance_char fx_text 4 2 99 2 = Ok (false, 7) /\
+  sc_chk_H1 Z 7 false (fd_total (fun p => fd_find_fixed_distance_char fx_text 4 p 99 2)) fx_exec = true.
+Proof. vm_compute. repeat split; reflexivity. Qed.
+
+(* an off-by-one distance loses the match *)
+Example C03_finder_wrong_distance_loses_match :
+  let bad := fd_total (fun p => fd_find_fixed_distance_char fx_text 4 p 99 1) in
+  bad 0 = (true, 2) /\ sc_chk_H1 Z 7 false bad fx_exec = false /\
+  scan 7 false 4 bad fx_exec 0 (-1) = Ok None /\ naive_scan 7 false fx_exec 0 (-1) = Ok (Some 1).
+Proof. vm_compute. repeat split; reflexivity. Qed.
+
+(* fixed-distance string "bc" at distance 1 *)
+Example C03_finder_fixed_distance_string_witness :
+  fd_find_fixed_distance_string fx_text 4 0 [98; 99] 1 = Ok (true, 1) /\
+  fd_find_fixed_distance_string fx_text 4 2 [98; 99] 1 = Ok (false, 7) /\
+  sc_chk_H1 Z 7 false (fd_total (fun p => fd_find_fixed_distance_string fx_text 4 p [98; 99] 1)) fx_exec = true.
+Proof. vm_compute. repeat split; reflexivity. Qed.
+
+(* fixed-distance sets: primary [cd] (enumerated) at distance 2, secondary [a-b] (range) at distance 0,
+   and a general set (id 0 = "is a lower-case letter") at distance 3.  From 0 the primary set first hits
+   'c' at 3 -> start 1, all sets agree.  From 2 the only later hit of the primary set is 'd' at 6 -> start 4,
+   beyond the latest possible start 7 - 4 = 3: the finder gives up.  With minimum length 3 the candidate 4
+   is in range: the first two sets accept it, the third (distance 3 = beyond the end) rejects it. *)
+Definition fx_sets : list fdset :=
+  [ {| fs_set := Some 1; fs_chars := [99; 100]; fs_negated := false; fs_range := None; fs_distance := 2 |};
+    {| fs_set := Some 2; fs_chars := []; fs_negated := false; fs_range := Some (97, 98); fs_distance := 0 |};
+    {| fs_set := Some 0; fs_chars := []; fs_negated := false; fs_range := None; fs_distance := 3 |} ].
+Definition fx_set_in (id x : Z) : bool := (id =? 0) && (97 <=? x) && (x <=? 122).
+Example C03_finder_fixed_distance_sets_witness :
+  fd_find_fixed_distance_sets fx_text fx_set_in 4 0 fx_sets = Ok (true, 1) /\
+  fd_find_fixed_distance_sets fx_text fx_set_in 4 2 fx_sets = Ok (false, 7) /\
+  fd_find_fixed_distance_sets fx_text fx_set_in 3 2 (firstn 2 fx_sets) = Ok (true, 4) /\
+  fd_find_fixed_distance_sets fx_text fx_set_in 3 2 fx_sets = Ok (false, 7) /\
+  sc_chk_H1 Z 7 false (fd_total (fun p => fd_find_fixed_distance_sets fx_text fx_set_in 4 p fx_sets)) fx_exec = true.
+Proof. vm_compute. repeat split; reflexivity. Qed.
+
+(* a negated primary set [^c] at distance 2 is wrong for this matcher: position 1 is skipped *)
+Example C03_finder_wrong_set_loses_match :
+  let bad := fd_total (fun p => fd_find_fixed_distance_sets fx_text fx_set_in 4 p
+               [ {| fs_set := Some 1; fs_chars := [99]; fs_negated := true; fs_range := None; fs_distance := 2 |} ]) in
+  bad 1 = (true, 2) /\ sc_chk_H1 Z 7 false bad fx_exec = false /\
+  scan 7 false 4 bad fx_exec 1 (-1) = Ok None /\ naive_scan 7 false fx_exec 1 (-1) = Ok (Some 1).
+Proof. vm_compute. repeat split; reflexivity. Qed.
+
+(* trailing fixed-length end: a matcher that only matches 3 runes before the end *)
+Example C03_finder_trailing_end_witness :
+  let ex := fun p : Z => (if p =? 4 then Some p else None, p) in
+  fd_find_trailing_fixed_length_end fx_text 0 3 = Ok (true, 4) /\
+  fd_find_trailing_fixed_length_end fx_text 5 3 = Ok (false, 7) /\
+  sc_chk_H1 Z 7 false (fd_total (fun p => fd_find_trailing_fixed_length_end fx_text p 3)) ex = true /\
+  scan 7 false 3 (fd_total (fun p => fd_find_trailing_fixed_length_end fx_text p 3)) ex 0 (-1) = Ok (Some 4).
+Proof. vm_compute. repeat split; reflexivity. Qed.
+
+(* a wrong fixed length (2 instead of 3) moves the candidate past the match *)
+Example C03_finder_wrong_fixed_length_loses_match :
+  let ex := fun p : Z => (if p =? 4 then Some p else None, p) in
+  let bad := fd_total (fun p => fd_find_trailing_fixed_length_end fx_text p 2) in
+  bad 0 = (true, 5) /\ sc_chk_H1 Z 7 false bad ex = false /\
+  scan 7 false 2 bad ex 0 (-1) = Ok None /\ naive_scan 7 false ex 0 (-1) = Ok (Some 4).
+Proof. vm_compute. repeat split; reflexivity. Qed.
+
+(* ---- literal after a leading loop, landmark chain, first-character loop ------------------------
+   Further facts:
+     fd_lal_fact l S           a match at q runs over runes of the loop set S up to some k >= q where the
+                               literal of l stands (string - exact or ignore-case as the finder compares -,
+                               one of a few runes, or one rune)
+     fd_chain_fact S A rest    a match at q runs over runes of S up to s, then over leading whitespace of
+                               an alternative a of the first landmark A up to c where a stands
+                               ([fd_alt_match_at a c e]: required whitespace just before c, the literal or
+                               MinRepeat..MaxRepeat set runes in [c,e), required whitespace at e), and the
+                               remaining landmarks stand in order at or after e ([fd_chain_rest])
+     fd_fc_fact rtl test       the rune ahead of a match position (behind it, right-to-left) passes test
+   [fd_alts_wf] / [fd_chain_wf]: MinRepeat of every alternative is >= 0. *)
+
+(* LiteralAfterLoop_LeftToRight: runner.go:1716 findLiteralAfterLoopLeftToRight + indexOfLiteralAfterLoop *)
+Theorem C03_finder_literal_after_loop :
+  forall (R : Type) (text : list Z) (exec : Z -> option R * Z) (lower : Z -> Z) (minreq : Z),
+    fd_minlen_fact R text exec minreq ->
+    forall (set_in : Z -> Z -> bool) (l : fdlal) (ls : Z),
+    lal_loop_set l = Some ls ->
+    fd_lal_fact R text exec lower set_in l ls ->
+    fd_sound R text exec (fun p => fd_find_literal_after_loop text set_in lower minreq p (Some l)).
+Proof. exact fd_literal_after_loop_sound. Qed.
+Print Assumptions C03_finder_literal_after_loop.
+
+(* RequiredLandmarkChain_LeftToRight: runner.go:1744 findRequiredLandmarkChainLeftToRight with
+   findNextRequiredLandmarkRunes, requiredLandmarkAlternativeMatch, requiredLandmarkMinWidth and
+   requiredLandmarkLeadingWhitespace, as repaired by /repo commits 573b074, 563c473, 5218d84 (before them
+   the statement is false: DESIGN 12.4). *)
+Theorem C03_finder_landmark_chain :
+  forall (R : Type) (text : list Z) (exec : Z -> option R * Z) (minreq : Z),
+    fd_minlen_fact R text exec minreq ->
+    forall (set_in : Z -> Z -> bool) (c : fdchain) (ls : Z) (first_alts : list fdalt) (rest : list (list fdalt)),
+    lc_loop_set c = Some ls -> lc_landmarks c = first_alts :: rest ->
+    fd_alts_wf first_alts -> fd_chain_wf rest ->
+    fd_chain_fact R text exec set_in ls first_alts rest ->
+    fd_sound R text exec (fun p => fd_find_landmark_chain text set_in minreq p (Some c)).
+Proof. exact fd_landmark_chain_sound. Qed.
+Print Assumptions C03_finder_landmark_chain.
+
+(* findFirstCharOptimized (runner.go:1497): the dispatch.  [fd_mode_fact o] is the fact of o's FindMode
+   (with the side conditions above), [fd_mode_handled o] says the mode is one the dispatcher serves; the
+   second conjunct: it then always answers handled = true. *)
+Theorem C03_finder_optimized_dispatch :
+  forall (R : Type) (text : list Z) (exec : Z -> option R * Z) (set_in : Z -> Z -> bool) (lower : Z -> Z) (o : fdopts),
+    fd_mode_handled o = true ->
+    fd_minlen_fact R text exec (fo_minreq o) ->
+    fd_mode_fact R text exec set_in lower o ->
+    fd_sound R text exec (fd_optimized_finder text set_in lower o) /\
+    (forall p r, fd_find_first_char_optimized text set_in lower o p = Ok r -> fst (fst r) = true).
+Proof. exact fd_optimized_sound. Qed.
+Print Assumptions C03_finder_optimized_dispatch.
+
+Theorem C03_should_use_implies_handled :
+  forall o, fd_should_use_optimized o = true -> fd_mode_handled o = true.
+Proof. exact fd_should_use_handled. Qed.
+Print Assumptions C03_should_use_implies_handled.
+
+(* the first-character loop of findFirstCharDefault (runner.go:1438-1465), both directions *)
+Theorem C03_finder_first_char_loop :
+  forall (R : Type) (text : list Z) (exec : Z -> option R * Z) (set_in : Z -> Z -> bool) (rtl : bool) (fc : option fdfc),
+    (forall f, fc = Some f -> fd_fc_fact R text exec rtl (fd_fc_test set_in f)) ->
+    sc_H1_true R (zlen text) rtl (fd_total (fd_first_char_loop text set_in rtl fc)) exec /\
+    sc_H1_false R (zlen text) rtl (fd_total (fd_first_char_loop text set_in rtl fc)) exec.
+Proof. exact fd_first_char_loop_H1. Qed.
+Print Assumptions C03_finder_first_char_loop.
+
+(* findFirstCharDefault below the Boyer-Moore branch (runner.go:1432-1465) *)
+Theorem C03_finder_default_below_bm :
+  forall (R : Type) (text : list Z) (exec : Z -> option R * Z) (set_in : Z -> Z -> bool) (lower : Z -> Z)
+         (rtl : bool) (o : option fdopts) (fc : option fdfc),
+    (forall o', o = Some o' -> fd_should_use_optimized o' = true ->
+       rtl = false /\ fd_minlen_fact R text exec (fo_minreq o') /\ fd_mode_fact R text exec set_in lower o') ->
+    ((forall o', o = Some o' -> fd_should_use_optimized o' = false) ->
+       forall f, fc = Some f -> fd_fc_fact R text exec rtl (fd_fc_test set_in f)) ->
+    sc_H1_true R (zlen text) rtl (fd_total (fd_ffc_nobm text set_in lower rtl o fc)) exec /\
+    sc_H1_false R (zlen text) rtl (fd_total (fd_ffc_nobm text set_in lower rtl o fc)) exec.
+Proof. exact fd_ffc_nobm_H1. Qed.
+Print Assumptions C03_finder_default_below_bm.
+
+(* ALL of findFirstCharDefault (runner.go:1386-1466): anchor jumps, Boyer-Moore branch, optimized finders,
+   first-character loop.  The Boyer-Moore machine is specified, not modelled: [bm] / [bm_scan] are its
+   answers and the fifth / sixth hypotheses say what is assumed of them. *)
+Theorem C03_finder_default :
+  forall (R : Type) (text : list Z) (exec : Z -> option R * Z) (set_in : Z -> Z -> bool) (lower : Z -> Z)
+         (rtl : bool) (anchors ts : Z) (bm : option (Z -> bool)) (bm_scan : option (Z -> Z))
+         (o : option fdopts) (fc : option fdfc),
+    let n := zlen text in
+    let succeeds := fun x => fst (exec x) <> None in
+    (abit anchors ANCH_BEGINNING = true -> forall x, sc_in_text n x -> succeeds x -> x = 0) ->
+    (abit anchors ANCH_START = true -> forall x, sc_in_text n x -> succeeds x -> x = ts) ->
+    (abit anchors ANCH_ENDZ = true -> forall x, sc_in_text n x -> succeeds x ->
+       x = n \/ (x = n - 1 /\ nth (Z.to_nat x) text 0 = 10)) ->
+    (abit anchors ANCH_END = true -> forall x, sc_in_text n x -> succeeds x -> x = n) ->
+    (forall is_match, bm = Some is_match -> forall x, sc_in_text n x -> succeeds x -> is_match x = true) ->
+    (forall scan, bm_scan = Some scan -> fd_bm_scan_fact R text exec rtl scan) ->
+    (bm_scan = None ->
+       sc_H1_true R n rtl (fd_total (fd_ffc_nobm text set_in lower rtl o fc)) exec /\
+       sc_H1_false R n rtl (fd_total (fd_ffc_nobm text set_in lower rtl o fc)) exec) ->
+    sc_H1_true R n rtl (fd_total (fd_find_first_char_default text set_in lower rtl anchors ts bm bm_scan o fc)) exec /\
+    sc_H1_false R n rtl (fd_total (fd_find_first_char_default text set_in lower rtl anchors ts bm bm_scan o fc)) exec.
+Proof. exact fd_default_H1. Qed.
+Print Assumptions C03_finder_default.
+
+(* ... and in the scan loop: with (H1) from C03_finder_default, (H2) for MinRequiredLength and (H3) *)
+Theorem C03_finder_default_scan_sound :
+  forall (R : Type) (text : list Z) (exec : Z -> option R * Z) (set_in : Z -> Z -> bool) (lower : Z -> Z)
+         (rtl : bool) (anchors ts : Z) (bm : option (Z -> bool)) (bm_scan : option (Z -> Z))
+         (o : option fdopts) (fc : option fdfc) (minreq : Z),
+    let n := zlen text in
+    let F := fd_total (fd_find_first_char_default text set_in lower rtl anchors ts bm bm_scan o fc) in
+    sc_H1_true R n rtl F exec -> sc_H1_false R n rtl F exec ->
+    sc_H2 R n rtl minreq exec -> sc_H3 R n rtl exec ->
+    forall start prevlen, 0 <= start <= n ->
+    exists r, scan n rtl minreq F exec start prevlen = Ok r /\ naive_scan n rtl exec start prevlen = Ok r.
+Proof. exact fd_default_scan_sound. Qed.
+Print Assumptions C03_finder_default_scan_sound.
+
+(* the facts in the form an analysis proof produces them: rune by rune / plain Set membership *)
+Theorem C03_prefix_fact_pointwise :
+  forall (R : Type) (text : list Z) (exec : Z -> option R * Z) eqc P,
+    (forall q, 0 <= q <= zlen text -> fd_succeeds R exec q ->
+       q + zlen P <= zlen text /\
+       forall j, 0 <= j < zlen P -> eqc (nth (Z.to_nat (q + j)) text 0) (nth (Z.to_nat j) P 0) = true) ->
+    fd_prefix_fact R text exec eqc P.
+Proof. exact fd_prefix_fact_pointwise. Qed.
+Print Assumptions C03_prefix_fact_pointwise.
+
+Theorem C03_fds_fact_of_sets :
+  forall (R : Type) (text : list Z) (exec : Z -> option R * Z) set_in sets,
+    (forall s, In s sets -> fd_fds_abbrev_ok set_in s) ->
+    (forall q, 0 <= q <= zlen text -> fd_succeeds R exec q -> forall s id, In s sets -> fs_set s = Some id ->
+       0 <= q + fs_distance s < zlen text /\ set_in id (nth (Z.to_nat (q + fs_distance s)) text 0) = true) ->
+    fd_fds_fact R text exec set_in sets.
+Proof. exact fd_fds_fact_of_sets. Qed.
+Print Assumptions C03_fds_fact_of_sets.
+
+(* ---- non-vacuity for these finders ---- *)
+
+(* [ab]*cd on "xabcdab": the matcher succeeds at 1, 2 and 3 (loop runs "ab", "b", ""); literal "cd" after the
+   loop set {a,b} (set id 0).  From 0 the literal is found at 3 and the walk back over {a,b} stops at 1. *)
+Definition fy_text : list Z := [120; 97; 98; 99; 100; 97; 98].
+Definition fy_set_in (id x : Z) : bool := (id =? 0) && ((x =? 97) || (x =? 98)).
+Definition fy_exec (p : Z) : option Z * Z := (if (1 <=? p) && (p <=? 3) then Some p else None, p).
+Definition fy_lal (s : list Z) (ic : bool) (ch : Z) (chs : list Z) : option fdlal :=
+  Some {| lal_string := s; lal_string_ic := ic; lal_char := ch; lal_chars := chs; lal_loop_set := Some 0 |}.
+Example C03_finder_literal_after_loop_witness :
+  let F := fun l p => fd_find_literal_after_loop fy_text fy_set_in fx_low 2 p l in
+  F (fy_lal [99; 100] false 0 []) 0 = Ok (true, 1) /\          (* string "cd" *)
+  F (fy_lal [99; 100] false 0 []) 4 = Ok (false, 7) /\
+  F (fy_lal [] false 99 []) 0 = Ok (true, 1) /\                (* rune 'c' *)
+  F (fy_lal [] false 0 [99; 122]) 0 = Ok (true, 1) /\          (* one of "cz" *)
+  fd_find_literal_after_loop [120; 97; 98; 67; 68] fy_set_in fx_low 2 0 (fy_lal [99; 100] true 0 []) = Ok (true, 1) /\
+  sc_chk_H1 Z 7 false (fd_total (F (fy_lal [99; 100] false 0 []))) fy_exec = true /\
+  scan 7 false 2 (fd_total (F (fy_lal [99; 100] false 0 []))) fy_exec 0 (-1) = Ok (Some 1).
+Proof. vm_compute. repeat split; reflexivity. Qed.
+
+(* the fact holds for this matcher, so the theorem applies *)
+Example C03_finder_literal_after_loop_applies :
+  fd_sound Z fy_text fy_exec
+    (fun p => fd_find_literal_after_loop fy_text fy_set_in fx_low 2 p (fy_lal [99; 100] false 0 [])).
+Proof.
+  assert (Hs : forall q, fd_succeeds Z fy_exec q -> 1 <= q <= 3).
+  { intros q H. unfold fd_succeeds, fy_exec in H. cbn [fst] in H.
+    destruct ((1 <=? q) && (q <=? 3)) eqn:E; [lia | contradiction]. }
+  apply (C03_finder_literal_after_loop Z fy_text fy_exec fx_low 2) with (ls := 0); [|reflexivity|].
+  - intros q Hq H. specialize (Hs q H). change (zlen fy_text) with 7. lia.
+  - intros q Hq H. specialize (Hs q H). exists 3. change (zlen fy_text) with 7. split; [lia|]. split.
+    + intros i Hi. assert (Hc : i = 1 \/ i = 2) by lia. destruct Hc as [->| ->]; reflexivity.
+    + vm_compute. reflexivity.
+Qed.
+
+(* a loop set that is too small ({a} instead of {a,b}) makes the walk back stop early: the match at 1 is lost *)
+Example C03_finder_wrong_loop_set_moves_match :
+  let bad := fd_total (fun p => fd_find_literal_after_loop fy_text (fun id x => (id =? 0) && (x =? 97)) fx_low 2 p
+                                  (fy_lal [99; 100] false 0 [])) in
+  bad 0 = (true, 3) /\ sc_chk_H1 Z 7 false bad fy_exec = false /\
+  scan 7 false 2 bad fy_exec 0 (-1) = Ok (Some 3) /\ naive_scan 7 false fy_exec 0 (-1) = Ok (Some 1).
+Proof. vm_compute. repeat split; reflexivity. Qed.
+
+(* landmark chain for [ab]+(?:\s+=|:)[ab]+; : loop set {a,b} (id 0), first landmark "=" with required leading
+   whitespace (set 1 = {space}) or ":", second landmark ";".  Text "x a  =b;" : the chain is found with the
+   first core at 5 ('='), stepped back over the whitespace to 3 and over the loop set to 2.  The matcher of
+   this example succeeds at 2 only. *)
+Definition fz_text : list Z := [120; 32; 97; 32; 32; 61; 98; 59].
+Definition fz_set_in (id x : Z) : bool :=
+  ((id =? 0) && ((x =? 97) || (x =? 98))) || ((id =? 1) && (x =? 32)).
+Definition fz_alt (lit : list Z) (ws : option Z) (req : bool) : fdalt :=
+  {| la_literal := lit; la_set := None; la_lead_ws := ws; la_trail_ws := None; la_min := 1; la_max := 1;
+     la_req_before := req; la_req_after := false |}.
+Definition fz_chain : option fdchain :=
+  Some {| lc_loop_set := Some 0;
+          lc_landmarks := [[fz_alt [61] (Some 1) true; fz_alt [58] None false]; [fz_alt [59] None false]] |}.
+Definition fz_exec (p : Z) : option Z * Z := (if p =? 2 then Some p else None, p).
+Example C03_finder_landmark_chain_witness :
+  let F := fun p => fd_find_landmark_chain fz_text fz_set_in 4 p fz_chain in
+  F 0 = Ok (true, 2) /\ F 3 = Ok (true, 3) /\ F 6 = Ok (false, 8) /\
+  fd_find_landmark_chain [120; 32; 97; 32; 32; 61; 98; 120] fz_set_in 4 0 fz_chain = Ok (false, 8) /\  (* no ';' *)
+  sc_chk_H1 Z 8 false (fd_total F) fz_exec = true /\
+  scan 8 false 4 (fd_total F) fz_exec 0 (-1) = Ok (Some 2).
+Proof. vm_compute. repeat split; reflexivity. Qed.
+
+(* landmarks in the wrong order (";" before "=") : the chain is never found and the match is lost *)
+Example C03_finder_wrong_landmark_order_loses_match :
+  let bad := fd_total (fun p => fd_find_landmark_chain fz_text fz_set_in 4 p
+      (Some {| lc_loop_set := Some 0;
+               lc_landmarks := [[fz_alt [59] None false]; [fz_alt [61] (Some 1) true; fz_alt [58] None false]] |})) in
+  bad 0 = (false, 8) /\ sc_chk_H1 Z 8 false bad fz_exec = false /\
+  scan 8 false 4 bad fz_exec 0 (-1) = Ok None /\ naive_scan 8 false fz_exec 0 (-1) = Ok (Some 2).
+Proof. vm_compute. repeat split; reflexivity. Qed.
+
+(* first-character loop, both directions: set {a,b}; left-to-right from 0 on "x a  =b;" stops at 2,
+   right-to-left from 8 stops at 7 (the rune before 7 is 'b') *)
+Example C03_finder_first_char_loop_witness :
+  let fc := Some {| fc_singleton := None; fc_set := 0 |} in
+  fd_first_char_loop fz_text fz_set_in false fc 0 = Ok (true, 2) /\
+  fd_first_char_loop fz_text fz_set_in false fc 7 = Ok (false, 8) /\
+  fd_first_char_loop fz_text fz_set_in true fc 8 = Ok (true, 7) /\
+  fd_first_char_loop fz_text fz_set_in true fc 2 = Ok (false, 0) /\
+  fd_first_char_loop fz_text fz_set_in false (Some {| fc_singleton := Some 61; fc_set := 0 |}) 0 = Ok (true, 5) /\
+  sc_chk_H1 Z 8 false (fd_total (fd_first_char_loop fz_text fz_set_in false fc)) fz_exec = true.
+Proof. vm_compute. repeat split; reflexivity. Qed.
+
+(* the dispatcher and findFirstCharDefault on the same data: mode 23 is served by the landmark-chain finder
+   (shouldUse = true); with Code.Anchors = Beginning the anchor part answers instead *)
+Definition fz_opts : fdopts :=
+  {| fo_mode := FM_RequiredLandmarkChain_LeftToRight; fo_minreq := 4; fo_prefix := []; fo_prefixes := [];
+     fo_first_runes := []; fo_fdl_c := 0; fo_fdl_s := []; fo_fdl_distance := 0; fo_sets := []; fo_lal := None;
+     fo_chain := fz_chain |}.
+Example C03_finder_default_witness :
+  fd_should_use_optimized fz_opts = true /\
+  fd_find_first_char_optimized fz_text fz_set_in fx_low fz_opts 0 = Ok (true, true, 2) /\
+  fd_find_first_char_default fz_text fz_set_in fx_low false 0 0 None None (Some fz_opts) None 0 = Ok (true, 2) /\
+  fd_verif_find_first_char fz_text fz_set_in fx_low false 0 0 None None (Some fz_opts) None 5 = Ok (true, false, 5) /\
+  fd_find_first_char_default fz_text fz_set_in fx_low false ANCH_BEGINNING 0 None None (Some fz_opts) None 3 = Ok (false, 8) /\
+  fd_find_first_char_default fz_text fz_set_in fx_low false 0 0 None (Some (fun p => if p <=? 2 then 2 else -1)) None None 3
+    = Ok (false, 8).
+Proof. vm_compute. repeat split; reflexivity. Qed.
+
+
+(* =========================================================================================
+   End to end, on a tree, for the modes whose fact C04 proves for the analysis (Model/Analysis.v):
+       the analysis publishes the mode  =>  scanning with that mode's finder returns what Spec.find returns.
+   One attempt of the matcher is Spec.attempt ([bp_exec e fuel root bumpq], C03_find_is_naive_scan);
+   hypotheses common to all four: the tree is well-shaped (C04's shape_ok / no_ci_lit / look_ok), the
+   attempts have enough fuel, and (H3) for the matcher - which holds trivially without the bump-along
+   shortcut (C03_H3_without_bumpalong) and by C03_bump_discharges_H3 with it.
+   [facts false lu root] is the published FindOptimizations record (MinRequiredLength, anchors, mode,
+   LeadingPrefix); [fc_opts_of_facts] reads it as the runner does ([]rune(LeadingPrefix) = runes_of).
+   For the modes whose fact C04 does not prove (fixed-distance sets / char / string, leading strings,
+   ignore-case prefix, literal after loop, landmark chain, first-character set) the per-finder
+   theorems above carry the fact as their explicit hypothesis (fd_fds_fact, fd_lal_fact, ...).
+   ========================================================================================= *)
+
+Theorem C03_H3_without_bumpalong :
+  forall (e : env) (fuel : nat) (root : node) (bumpq : Z -> Z),
+    (forall p, bumpq p = p) -> forall rtl, sc_H3 st (tlen e) rtl (bp_exec e fuel root bumpq).
+Proof. exact fc_H3_id. Qed.
+Print Assumptions C03_H3_without_bumpalong.
+
+(* MinRequiredLength alone (FindMode NoSearch, no FcPrefix / Boyer-Moore prefix / anchor bit): runner.go:170-180,
+   both directions *)
+Theorem C03_mode_min_length_sound :
+  forall (e : env) (fuel : nat) (root : node) (bumpq : Z -> Z) (rtl : bool),
+    shape_ok rtl root = true ->
+    (forall x, 0 <= x <= tlen e -> exists r, attempt e fuel root x = Ok r) ->
+    sc_H3 st (tlen e) rtl (bp_exec e fuel root bumpq) ->
+    forall start prevlen, 0 <= start <= tlen e ->
+    exists r, find e fuel root rtl start prevlen = Ok r /\
+      scan (tlen e) rtl (min_len root)
+           (fd_total (fd_find_first_char_default (txt e) (set_in e) (lower e) rtl 0 (tstart e) None None None None))
+           (bp_exec e fuel root bumpq) start prevlen = Ok r.
+Proof. exact fc_min_length_cut_sound. Qed.
+Print Assumptions C03_mode_min_length_sound.
+
+(* Code.Anchors names a leading \A, \G, \Z or \z (left-to-right) / trailing one (right-to-left):
+   the anchor jumps of findFirstCharDefault, whatever FindOptimizations and FcPrefix hold *)
+Theorem C03_mode_anchor_sound :
+  forall (e : env) (fuel : nat) (root : node) (bumpq : Z -> Z) (rtl : bool),
+    shape_ok rtl root = true ->
+    (forall x, 0 <= x <= tlen e -> exists r, attempt e fuel root x = Ok r) ->
+    sc_H3 st (tlen e) rtl (bp_exec e fuel root bumpq) ->
+    forall (a : anchor) (o : option fdopts) (fc : option fdfc),
+    get_anchors root = anchor_bit a ->
+    a = ABeginning \/ a = AStart \/ a = AEndZ \/ a = AEnd ->
+    forall start prevlen, 0 <= start <= tlen e ->
+    exists r, find e fuel root rtl start prevlen = Ok r /\
+      scan (tlen e) rtl (min_len root)
+           (fd_total (fd_find_first_char_default (txt e) (set_in e) (lower e) rtl (get_anchors root) (tstart e)
+                        None None o fc))
+           (bp_exec e fuel root bumpq) start prevlen = Ok r.
+Proof. exact fc_mode_anchor_sound. Qed.
+Print Assumptions C03_mode_anchor_sound.
+
+(* TrailingAnchor_FixedLength_LeftToRight_End: trailing \z and min length = max length *)
+Theorem C03_mode_trailing_end_sound :
+  forall (e : env) (fuel : nat) (root : node) (bumpq : Z -> Z) (later_useful : bool),
+    shape_ok false root = true -> no_ci_lit root = true -> look_ok root = true ->
+    (forall x, 0 <= x <= tlen e -> exists r, attempt e fuel root x = Ok r) ->
+    sc_H3 st (tlen e) false (bp_exec e fuel root bumpq) ->
+    f_mode (facts false later_useful root) = FM_TrailingAnchor_FixedLength_LeftToRight_End ->
+    forall start prevlen, 0 <= start <= tlen e ->
+    exists r, find e fuel root false start prevlen = Ok r /\
+      scan (tlen e) false (f_min (facts false later_useful root))
+           (fd_total (fd_optimized_finder (txt e) (set_in e) (lower e) (fc_opts_of_facts (facts false later_useful root))))
+           (bp_exec e fuel root bumpq) start prevlen = Ok r.
+Proof. exact fc_mode_trailing_end_sound. Qed.
+Print Assumptions C03_mode_trailing_end_sound.
+
+(* LeadingString_LeftToRight: the published LeadingPrefix is a BYTE string (C04_find_prefix_sound); when it
+   is the UTF-8 encoding of valid runes P (so []rune(LeadingPrefix) = P) and the text holds valid runes, the
+   leading-string finder is sound.  (The prefix of an alternation can be cut inside a multi-byte rune;
+   then the hypothesis fails, []rune gives U+FFFD and the theorem says nothing - runner.go serves this mode
+   through the Boyer-Moore prefix of getPrefix, not through this finder.) *)
+Theorem C03_mode_leading_string_sound :
+  forall (e : env) (fuel : nat) (root : node) (bumpq : Z -> Z) (later_useful : bool),
+    shape_ok false root = true -> no_ci_lit root = true -> look_ok root = true ->
+    (forall x, 0 <= x <= tlen e -> exists r, attempt e fuel root x = Ok r) ->
+    sc_H3 st (tlen e) false (bp_exec e fuel root bumpq) ->
+    forall P : list Z,
+    f_mode (facts false later_useful root) = FM_LeadingString_LeftToRight ->
+    forallb valid_rune P = true -> forallb valid_rune (txt e) = true ->
+    f_prefix (facts false later_useful root) = encode_string P ->
+    forall start prevlen, 0 <= start <= tlen e ->
+    exists r, find e fuel root false start prevlen = Ok r /\
+      scan (tlen e) false (f_min (facts false later_useful root))
+           (fd_total (fd_optimized_finder (txt e) (set_in e) (lower e) (fc_opts_of_facts (facts false later_useful root))))
+           (bp_exec e fuel root bumpq) start prevlen = Ok r.
+Proof. exact fc_mode_leading_string_sound. Qed.
+Print Assumptions C03_mode_leading_string_sound.
+
+(* ---- witnesses on concrete trees ---- *)
+
+(* ab\z on "xabab": the analysis publishes mode 9 with length 2; the finder jumps from 0 to 3; same match *)
+Definition ex_root_abz : node := NCapture 0 0 (-1) (NConcat 0 [NMulti 0 [97; 98]; NAnchor AEnd]).
+Example C03_mode_trailing_end_witness :
+  let e := ex_env [120; 97; 98; 97; 98] in
+  let f := facts false false ex_root_abz in
+  shape_ok false ex_root_abz = true /\ no_ci_lit ex_root_abz = true /\ look_ok ex_root_abz = true /\
+  f_mode f = FM_TrailingAnchor_FixedLength_LeftToRight_End /\ f_min f = 2 /\
+  fd_optimized_finder (txt e) (set_in e) (lower e) (fc_opts_of_facts f) 0 = Ok (true, 3) /\
+  find e 10 ex_root_abz false 0 (-1) = Ok (Some {| pos := 5; caps := [(0, [(3, 2)])] |}) /\
+  scan 5 false 2 (fd_total (fd_optimized_finder (txt e) (set_in e) (lower e) (fc_opts_of_facts f)))
+       (bp_exec e 10 ex_root_abz (fun p => p)) 0 (-1) = Ok (Some {| pos := 5; caps := [(0, [(3, 2)])] |}).
+Proof. vm_compute. repeat split; reflexivity. Qed.
+
+(* abc[a-z] as the tree "abc" + set on "xxabcd": mode 11, prefix "abc" = encode_string [97;98;99]; finder jumps to 2 *)
+Definition ex_root_abcw : node := NCapture 0 0 (-1) (NConcat 0 [NMulti 0 [97; 98; 99]; NChar CSet 0 0]).
+Example C03_mode_leading_string_witness :
+  let e := {| txt := [120; 120; 97; 98; 99; 100]; tstart := 0; ecma := false; endz_strict := false;
+              set_in := fun _ x => (97 <=? x) && (x <=? 122); lower := fun x => x;
+              is_word := fun _ => false; is_eword := fun _ => false |} in
+  let f := facts false false ex_root_abcw in
+  f_mode f = FM_LeadingString_LeftToRight /\ f_min f = 4 /\ f_prefix f = encode_string [97; 98; 99] /\
+  runes_of (f_prefix f) = [97; 98; 99] /\
+  fd_optimized_finder (txt e) (set_in e) (lower e) (fc_opts_of_facts f) 0 = Ok (true, 2) /\
+  fd_optimized_finder (txt e) (set_in e) (lower e) (fc_opts_of_facts f) 3 = Ok (false, 6) /\
+  find e 10 ex_root_abcw false 0 (-1) = Ok (Some {| pos := 6; caps := [(0, [(2, 4)])] |}) /\
+  scan 6 false 4 (fd_total (fd_optimized_finder (txt e) (set_in e) (lower e) (fc_opts_of_facts f)))
+       (bp_exec e 10 ex_root_abcw (fun p => p)) 0 (-1) = Ok (Some {| pos := 6; caps := [(0, [(2, 4)])] |}).
+Proof. vm_compute. repeat split; reflexivity. Qed.
+
+(* \Aab on "abab" searched from 2: Code.Anchors = Beginning, the finder gives up at once; same (no) match *)
+Definition ex_root_Aab : node := NCapture 0 0 (-1) (NConcat 0 [NAnchor ABeginning; NMulti 0 [97; 98]]).
+Example C03_mode_anchor_witness :
+  let e := ex_env [97; 98; 97; 98] in
+  get_anchors ex_root_Aab = anchor_bit ABeginning /\
+  fd_find_first_char_default (txt e) (set_in e) (lower e) false (get_anchors ex_root_Aab) 0 None None None None 2 = Ok (false, 4) /\
+  find e 10 ex_root_Aab false 2 (-1) = Ok None /\
+  scan 4 false 2 (fd_total (fd_find_first_char_default (txt e) (set_in e) (lower e) false (get_anchors ex_root_Aab) 0 None None None None))
+       (bp_exec e 10 ex_root_Aab (fun p => p)) 2 (-1) = Ok None /\
+  find e 10 ex_root_Aab false 0 (-1) = Ok (Some {| pos := 2; caps := [(0, [(0, 2)])] |}).
 Proof. vm_compute. repeat split; reflexivity. Qed.
